@@ -112,6 +112,9 @@ def normalise_ms(texts):
     return out
 
 
+REFUSAL_FAMILIES = re.compile(r"limit|cerr|lex/|invalid|mapsize|locals/|nestedrecv|decl|scale|token|compile")
+
+
 COMPILE_RE = re.compile(r'^\[module "([^"]*)", line (\d+)\] Error(?: at end| at \'.*\')?: (.*)$', re.S)
 
 
@@ -192,6 +195,29 @@ def check_programs(ck, progs, cfg="hook", opts=None, timeout=None, sig_prefix="M
             o["hostclasses"] = 1
         cases.append(mk_case("m%d" % i, [tuple(s) for s in p["steps"]], o, p.get("mods"), p.get("globals")))
         keep.append((p, m))
+        # what the model says happens, per snippet: a program whose every snippet is refused by the compiler exercises
+        # nothing of what its generator meant to exercise, and model and implementation agree on it all the same
+        snips = [s for s in m["view"] if s.get("k") == "snip"]
+        for s in snips:
+            ck.count("model_snippets_" + {"ok": "ok", "error": "uncaught_error", "compile_error": "compile_error"}.get(s["res"], "other"))
+        if snips and all(s["res"] == "compile_error" for s in snips):
+            ck.count("programs_refused_outright")
+            fam = re.sub(r"[-_]?\d+", "", p["name"])[:40] or "?"
+            by = ck.coverage.setdefault("refused_outright_by_family", {})
+            by[fam] = by.get(fam, 0) + 1
+        fam_all = re.sub(r"[-_]?\d+", "", p["name"])[:40] or "?"
+        tot = ck.__dict__.setdefault("_family_totals", {})
+        tot[fam_all] = tot.get(fam_all, 0) + 1
+    # a family of generated programs of which a sizeable part is refused by the compiler - in the model and hence, when
+    # the two agree, in the implementation - is a generator that writes something the language does not have: its
+    # programs pass without exercising anything (found in feat_order: `v[0] += x` does not exist, 27 % of that family
+    # never ran). Families whose purpose is a refusal (limits, lexing, compile-error reports) are exempt.
+    for fam, n_ref in (ck.coverage.get("refused_outright_by_family") or {}).items():
+        n_all = ck.__dict__.get("_family_totals", {}).get(fam, 0)
+        if n_all >= 50 and n_ref > 0.15 * n_all and not REFUSAL_FAMILIES.search(fam):
+            msg = "%d of %d programs of family %r do not compile (in the model): the generator writes something the language does not have" % (n_ref, n_all, fam)
+            if msg not in ck.inconclusive:
+                ck.inconclusive.append(msg)
     tmo = timeout or common.batch_timeout(ck.tier, len(cases) / 8)
     for c in (cfg,) + tuple(extra_cfgs):
         results = common.run_batch(c, cases, timeout=tmo)
